@@ -34,6 +34,16 @@ fn main() {
       let fs: Vec<serde_json::Value> = o.failures.iter().map(|f| serde_json::json!({"sig": f.sig, "detail": f.detail})).collect();
       println!("{}", serde_json::json!({"failures": fs, "discard": o.discard, "nontrivial": o.nontrivial, "labels": o.labels, "sample": o.sample}));
     }
+    "gen" => {
+      // gen ID tier casefile : print the artifact a tape generates
+      let prop = sv::props::by_id(&args[1]).expect("unknown property");
+      let tier = Tier::parse(&args[2]);
+      let case: serde_json::Value = serde_json::from_str(&std::fs::read_to_string(&args[3]).unwrap()).unwrap();
+      let data: Vec<u32> = case["tape"].as_array().unwrap().iter().map(|x| x.as_u64().unwrap_or(0) as u32).collect();
+      prop.setup(tier);
+      let mut tape = sv::engine::Tape::new(data);
+      println!("{}", serde_json::to_string_pretty(&prop.generate(&mut tape, tier)).unwrap());
+    }
     "list" => {
       for p in sv::props::all() {
         println!("{}", p.id());
